@@ -70,6 +70,9 @@ type poolRouter struct {
 	appChain rux.HandlersChain
 	ctxs     map[*rux.Context]bool
 	last     *rux.Context
+	// copies of earlier contexts kept by "background jobs" of their requests (mutation "copy"); every later request's
+	// probe lets the jobs report on THEIR copies first, while the later request is in flight
+	copies []*rux.Context
 }
 
 func newPoolRouter(hook, caching bool) *poolRouter {
@@ -81,6 +84,9 @@ func newPoolRouter(hook, caching bool) *poolRouter {
 	r := newRouter(opts...)
 	pr.r = r
 	r.Use(func(c *rux.Context) { // the probe: first handler of every request
+		for _, cp := range pr.copies {
+			cp.AbortWithStatus(500)
+		}
 		o := &poolObs{DataNil: c.Data() == nil, Errors: len(c.Errors), Aborted: c.IsAborted(), Status: c.StatusCode(), Length: c.Length()}
 		for k := range c.Data() {
 			switch k {
@@ -177,6 +183,10 @@ func newPoolRouter(hook, caching bool) *poolRouter {
 				qv := c.QueryValues() // the handler's own copy to edit (eg to build the link to the next page)
 				qv.Set("limit", "10")
 				qv.Del("token")
+			case "copy":
+				// a middleware wraps the writer for its request; the handler hands a copy of the context to a background job
+				c.Resp = &tagWriter{ResponseWriter: c.Resp, tag: "[job]"}
+				pr.copies = append(pr.copies, c.Copy())
 			case "delegate":
 				pr.other.HandleContext(c) // another router dispatches the request on this context
 			}
@@ -276,7 +286,7 @@ func poolReplay(s *Summary, raw json.RawMessage) {
 	// histories (one per model state and step) need not contain them in front of every kind of request. For the short
 	// histories each of them is therefore added to the first request and the last request is compared with the fresh twin.
 	if len(c.H) == 2 {
-		for _, latent := range []string{"renderfail", "sethandlers", "query", "delegate", "params", "allowed"} {
+		for _, latent := range []string{"renderfail", "sethandlers", "query", "delegate", "params", "allowed", "copy"} {
 			first := c.H[0]
 			first.Muts = append(append([]string{}, first.Muts...), latent)
 			pv := newPoolRouter(hook, caching)
